@@ -51,7 +51,7 @@ fn others_untouched<const N: usize>(wd: &World<N>, except: usize) {
 
 // ---------------------------------------------------------------------------------------------
 // truncate
-l2!(c01_truncate_step, 21, {
+l2!(c01_truncate_step, 6, {
     let wd = world_pages([Kind::Region, Kind::Hole, Kind::Region], [2, 1, 1], false);
     let r = wd.regions[0].clone().unwrap();
     let (start, len, reserved) = vr::geom(&r);
@@ -95,7 +95,7 @@ l2!(c01_truncate_step, 21, {
 
 // ---------------------------------------------------------------------------------------------
 // rename
-l2!(c01_rename_step, 21, {
+l2!(c01_rename_step, 6, {
     let wd = world_pages([Kind::Region, Kind::Region], [1, 1], true);
     let r = wd.regions[0].clone().unwrap();
     let geom0 = vr::geom(&r);
@@ -186,6 +186,331 @@ fn body_remove<const N: usize>(kinds: [Kind; N], pages: [u8; N], x: usize, extra
     assert!(psync::nothing_held());
     core::mem::forget((res, wd));
 }
-l2!(c01_remove_step, 21, { body_remove([Kind::Region, Kind::Region, Kind::Hole], [1, 2, 1], 1, 0); });
-l2!(c01_remove_last_step, 21, { body_remove([Kind::Hole, Kind::Region], [1, 1], 1, 0); });
-l2!(c13_remove_refused_no_effect, 21, { body_remove([Kind::Region, Kind::Region, Kind::Hole], [1, 2, 1], 1, 1); });
+l2!(c01_remove_step, 6, { body_remove([Kind::Region, Kind::Region, Kind::Hole], [1, 2, 1], 1, 0); });
+l2!(c01_remove_last_step, 6, { body_remove([Kind::Hole, Kind::Region], [1, 1], 1, 0); });
+l2!(c13_remove_refused_no_effect, 6, { body_remove([Kind::Region, Kind::Region, Kind::Hole], [1, 2, 1], 1, 1); });
+
+// ---------------------------------------------------------------------------------------------
+// lock classes (documented order: layout -> regions -> mmap -> file -> meta -> dirty_bounds)
+pub(crate) const LAYOUT: u8 = 1;
+pub(crate) const REGIONS: u8 = 2;
+pub(crate) const MMAP: u8 = 3;
+pub(crate) const FILE: u8 = 4;
+pub(crate) const META: u8 = 5;
+pub(crate) const DIRTY: u8 = 6;
+
+pub(crate) fn classify_locks<const N: usize>(wd: &World<N>) {
+    let ids = lock_ids(&wd.db);
+    psync::set_class(ids[0], LAYOUT);
+    psync::set_class(ids[1], REGIONS);
+    psync::set_class(ids[2], MMAP);
+    psync::set_class(ids[3], FILE);
+    let mut i = 0;
+    while i < N {
+        if let Some(r) = &wd.regions[i] {
+            psync::set_class(vr::meta_lock_id(r), META);
+            psync::set_class(vr::dirty_lock_id(r), DIRTY);
+        }
+        i += 1;
+    }
+}
+
+/// C11 obligations O1/O2 over the lock tap: whenever a lock is requested, every lock currently held
+/// is of a strictly smaller class (documented order), and a lock that is already held in any mode is
+/// never requested again (writer-preferring locks: a queued writer blocks the second read).
+/// O3: nothing is held at the end.
+pub(crate) fn lock_order_ok() -> bool {
+    let t = ghost::tap();
+    let mut held_ids: u32 = 0; // bit per lock id (NLOCK <= 20)
+    let mut per_class = [0u8; 8]; // how many locks of each class are held
+    let mut ok = true;
+    anydb_verif_platform::unroll48!(i, {
+        if i < t.n {
+            let id = (t.e[i] & 255) as usize;
+            let c = psync::class_of(id) as usize;
+            if t.e[i] & 256 == 0 {
+                if held_ids & (1u32 << id) != 0 {
+                    ok = false; // re-request of a lock this thread already holds
+                }
+                if c != 0 {
+                    // every held lock must be of a strictly smaller class
+                    anydb_verif_platform::unroll8!(k, {
+                        if k >= c && per_class[k] > 0 {
+                            ok = false;
+                        }
+                    });
+                }
+                held_ids |= 1u32 << id;
+                per_class[c] += 1;
+            } else {
+                // guards are released one for one; a recursive acquisition was flagged above
+                if per_class[c] > 0 {
+                    per_class[c] -= 1;
+                }
+                if per_class[c] == 0 || true {
+                    held_ids &= !(1u32 << id);
+                }
+            }
+        }
+    });
+    ok
+}
+
+// ---------------------------------------------------------------------------------------------
+// flush: durability order, clean marking, promotion of pending holes only after both syncs
+#[kani::proof]
+#[kani::unwind(6)]
+#[kani::stub(alloc::fmt::format, stubs::format_stub)]
+#[kani::stub(crate::Database::sync_bg_tasks, crate::verif_root::sync_bg_tasks_stub)]
+#[kani::stub(crate::layout::Layout::promote_pending_holes, crate::layout::verif_layout::promote_stub)]
+fn c05_flush_order() {
+    let wd = world_pages([Kind::Region, Kind::Region, Kind::Pending], [1, 1, 1], false);
+    let (r0, r1) = (wd.regions[0].clone().unwrap(), wd.regions[1].clone().unwrap());
+    let s0 = vm::state_of(&*r0.meta());
+    let s1 = vm::state_of(&*r1.meta());
+    let d0 = vr::dirty_peek(&r0);
+    let d1 = vr::dirty_peek(&r1);
+    // a never-written fresh region (NEEDS_WRITE) has no dirty data
+    kani::assume(s0 != 2 || d0 == (usize::MAX, 0));
+    kani::assume(s1 != 2 || d1 == (usize::MAX, 0));
+    let dirty0 = d0.0 < d0.1 || s0 == 1;
+    let dirty1 = d1.0 < d1.1 || s1 == 1;
+    let fail_sync = kani::any::<bool>();
+    let fail_flush = kani::any::<bool>();
+    pfs::state().fail_sync = fail_sync;
+    pfs::state().fail_flush = fail_flush;
+    classify_locks(&wd);
+    ghost::clear();
+    ghost::enable_lock_tap(false);
+    let res = wd.db.flush();
+    // positions of the durability events
+    let l = ghost::get();
+    let (mut fa_data, mut fa_meta, mut sy_data, mut sy_meta) = (usize::MAX, usize::MAX, usize::MAX, usize::MAX);
+    anydb_verif_platform::unroll20!(i, {
+        if i < l.n {
+            match (l.k[i], l.a[i]) {
+                (K::FlushAsync, pfs::DATA) => fa_data = i,
+                (K::FlushAsync, pfs::REGIONS) => fa_meta = i,
+                (K::Sync, pfs::DATA) => sy_data = i,
+                (K::Sync, pfs::REGIONS) => sy_meta = i,
+                _ => {}
+            }
+        }
+    });
+    assert!(ghost::count(K::Write) == 0 && ghost::count(K::Copy) == 0 && ghost::count(K::SetLen) == 0);
+    let lay = layout_of(&wd.db);
+    match &res {
+        Ok(n) => {
+            assert!(*n == dirty0 as usize + dirty1 as usize);
+            if dirty0 || dirty1 {
+                // data durable before metadata: sync(data) precedes sync(regions); both happened
+                assert!(sy_data != usize::MAX && sy_meta != usize::MAX && sy_data < sy_meta);
+                assert!(fa_meta != usize::MAX && fa_meta < sy_meta);
+                if d0.0 < d0.1 || d1.0 < d1.1 {
+                    assert!(fa_data != usize::MAX && fa_data < sy_data);
+                    // the async range covers every dirty byte
+                    let (lo, hi) = (l.b[fa_data], l.b[fa_data] + l.c[fa_data]);
+                    if d0.0 < d0.1 { assert!(lo <= wd.starts[0] + d0.0 && wd.starts[0] + d0.1 <= hi); }
+                    if d1.0 < d1.1 { assert!(lo <= wd.starts[1] + d1.0 && wd.starts[1] + d1.1 <= hi); }
+                }
+                if dirty0 { assert!(vm::state_of(&*r0.meta()) == 0); }
+                if dirty1 { assert!(vm::state_of(&*r1.meta()) == 0); }
+            } else {
+                assert!(l.n == 1);
+            }
+            // pending extents become reusable only now: promotion is the last effect, after both syncs
+            assert!(crate::layout::verif_layout::n_pending(lay) == 0);
+            assert!(l.n >= 1 && l.k[l.n - 1] == K::Pause && l.a[l.n - 1] == 99 && l.b[l.n - 1] == 1);
+            assert!(ghost::count(K::Pause) == 1);
+            assert!(vr::dirty_peek(&r0) == (usize::MAX, 0) && vr::dirty_peek(&r1) == (usize::MAX, 0));
+            kani::cover!(dirty0 && dirty1, "two dirty regions flushed");
+            kani::cover!(!dirty0 && !dirty1, "nothing dirty: only promotion");
+        }
+        Err(_) => {
+            assert!(fail_sync || fail_flush);
+            assert!(dirty0 || dirty1);
+            // a failed flush never promotes (old extents stay protected) and never marks clean
+            // what was not synced
+            assert!(crate::layout::verif_layout::n_pending(lay) == 1 && ghost::count(K::Pause) == 0);
+            if sy_meta == usize::MAX {
+                if s0 == 1 { assert!(vm::state_of(&*r0.meta()) == 1); }
+                if s1 == 1 { assert!(vm::state_of(&*r1.meta()) == 1); }
+            }
+            kani::cover!(fail_sync, "sync failure");
+        }
+    }
+    assert!(psync::nothing_held());
+    core::mem::forget((res, r0, r1, wd));
+}
+
+// flush again with the lock tap on: C11 obligations (small log: events + lock events)
+#[kani::proof]
+#[kani::unwind(6)]
+#[kani::stub(alloc::fmt::format, stubs::format_stub)]
+#[kani::stub(crate::Database::sync_bg_tasks, crate::verif_root::sync_bg_tasks_stub)]
+#[kani::stub(crate::layout::Layout::promote_pending_holes, crate::layout::verif_layout::promote_stub)]
+fn c11_flush_lock_order() {
+    let wd = world_pages([Kind::Region, Kind::Pending], [1, 1], false);
+    classify_locks(&wd);
+    ghost::clear();
+    ghost::enable_lock_tap(true);
+    let res = wd.db.flush();
+    assert!(lock_order_ok(), "lock order / re-acquisition violation in Database::flush");
+    assert!(psync::nothing_held());
+    kani::cover!(res.is_ok() && ghost::count(K::Sync) == 2, "dirty flush path");
+    kani::cover!(res.is_ok() && ghost::count(K::Sync) == 0, "clean flush path");
+    core::mem::forget((res, wd));
+}
+
+// ---------------------------------------------------------------------------------------------
+// compact = flush + punch_holes
+#[kani::proof]
+#[kani::unwind(6)]
+#[kani::stub(alloc::fmt::format, stubs::format_stub)]
+#[kani::stub(crate::Database::sync_bg_tasks, crate::verif_root::sync_bg_tasks_stub)]
+#[kani::stub(crate::layout::Layout::promote_pending_holes, crate::layout::verif_layout::promote_stub)]
+fn c12_compact_step() {
+    let wd = world_pages([Kind::Region, Kind::Hole, Kind::Region, Kind::Pending], [2, 1, 1, 1], false);
+    let (r0, r2) = (wd.regions[0].clone().unwrap(), wd.regions[2].clone().unwrap());
+    let g0 = vr::geom(&r0);
+    let g2 = vr::geom(&r2);
+    kani::assume(vm::state_of(&*r0.meta()) != 2 || vr::dirty_peek(&r0) == (usize::MAX, 0));
+    kani::assume(vm::state_of(&*r2.meta()) != 2 || vr::dirty_peek(&r2) == (usize::MAX, 0));
+    ghost::clear();
+    let res = wd.db.compact();
+    assert!(res.is_ok());
+    // nothing about any live region changes; the logical file length is untouched
+    assert!(vr::geom(&r0) == g0 && vr::geom(&r2) == g2);
+    assert!(ghost::count(K::SetLen) == 0 && ghost::count(K::Write) == 0 && ghost::count(K::Copy) == 0);
+    let l = ghost::get();
+    let mut last_meta_sync = usize::MAX;
+    anydb_verif_platform::unroll20!(i, {
+        if i < l.n && l.k[i] == K::Sync && l.a[i] == pfs::REGIONS {
+            last_meta_sync = i;
+        }
+    });
+    let ceil = |n: usize| (n + 4095) & !4095;
+    let mut npunch = 0;
+    anydb_verif_platform::unroll20!(i, {
+        if i < l.n && l.k[i] == K::Punch {
+            npunch += 1;
+            let (s, n) = (l.b[i], l.c[i]);
+            assert!(l.a[i] == pfs::DATA && s % 4096 == 0 && n % 4096 == 0 && n > 0);
+            // inside the unused tail of a region's reserve, or inside free space
+            let in_tail0 = s >= g0.0 + ceil(g0.1) && s + n <= g0.0 + g0.2;
+            let in_tail2 = s >= g2.0 + ceil(g2.1) && s + n <= g2.0 + g2.2;
+            let in_hole = s >= wd.starts[1] && s + n <= wd.starts[1] + wd.sizes[1];
+            let in_old_pending = s >= wd.starts[3] && s + n <= wd.starts[3] + wd.sizes[3];
+            assert!(in_tail0 || in_tail2 || in_hole || in_old_pending);
+            // never a byte a live region can read
+            assert!(s + n <= g0.0 || s >= g0.0 + ceil(g0.1));
+            assert!(s + n <= g2.0 || s >= g2.0 + ceil(g2.1));
+            // an extent freed since the last flush is punched only after this flush made the
+            // metadata that no longer references it durable (or there was nothing to sync)
+            if in_old_pending && last_meta_sync != usize::MAX {
+                assert!(i > last_meta_sync);
+            }
+        }
+    });
+    kani::cover!(npunch >= 2, "tail and hole punched");
+    assert!(psync::nothing_held());
+    core::mem::forget((res, r0, r2, wd));
+}
+
+#[kani::proof]
+#[kani::unwind(6)]
+#[kani::stub(alloc::fmt::format, stubs::format_stub)]
+#[kani::stub(crate::Database::sync_bg_tasks, crate::verif_root::sync_bg_tasks_stub)]
+#[kani::stub(crate::layout::Layout::promote_pending_holes, crate::layout::verif_layout::promote_stub)]
+fn c11_compact_lock_order() {
+    let wd = world_pages([Kind::Region, Kind::Hole], [2, 1], false);
+    let r0 = wd.regions[0].clone().unwrap();
+    // clean region: the flush half takes no per-region path; keeps the tap log small
+    vm::set_state(r0.meta_mut_peek(), 0);
+    classify_locks(&wd);
+    ghost::clear();
+    ghost::enable_lock_tap(true);
+    let res = wd.db.compact();
+    assert!(lock_order_ok(), "lock order / re-acquisition violation in Database::compact");
+    assert!(psync::nothing_held());
+    kani::cover!(ghost::count(K::Punch) >= 1, "something punched");
+    core::mem::forget((res, r0, wd));
+}
+
+// ---------------------------------------------------------------------------------------------
+// create_region_if_needed
+fn body_create<const N: usize>(kinds: [Kind; N], pages: [u8; N]) {
+    let wd = world_pages(kinds, pages, true);
+    let existing = kani::any::<bool>();
+    let fail = kani::any::<bool>();
+    pfs::state().fail_set_len = fail;
+    let end0 = layout_of(&wd.db).len();
+    let file0 = wd.db.file_len();
+    ghost::clear();
+    let w = any_addr();
+    let before = classify(layout_of(&wd.db), w);
+    let res = wd.db.create_region_if_needed(if existing { "a" } else { "z" });
+    let after = classify(layout_of(&wd.db), w);
+    others_untouched(&wd, usize::MAX);
+    match &res {
+        Ok(r) => {
+            if existing {
+                assert!(r.index() == 0 && after == before && ghost::count(K::Write) == 0);
+            } else {
+                let (s, len, res_) = vr::geom(r);
+                assert!(len == 0 && res_ == PAGE_SIZE && s % PAGE_SIZE == 0);
+                // best fit: a smallest promoted hole if any, otherwise the end of the allocated area
+                let mut best: Option<(usize, usize)> = None;
+                let mut j = 0;
+                while j < N {
+                    if kinds[j] == Kind::Hole {
+                        best = match best {
+                            Some((_, z)) if z <= wd.sizes[j] => best,
+                            _ => Some((wd.starts[j], wd.sizes[j])),
+                        };
+                    }
+                    j += 1;
+                }
+                match best {
+                    Some((_, z)) => {
+                        // placed at the start of a hole of the smallest size
+                        let mut ok = false;
+                        let mut j = 0;
+                        while j < N {
+                            if kinds[j] == Kind::Hole && wd.starts[j] == s && wd.sizes[j] == z {
+                                ok = true;
+                            }
+                            j += 1;
+                        }
+                        assert!(ok && layout_of(&wd.db).len() == end0);
+                    }
+                    None => assert!(s == end0 && layout_of(&wd.db).len() == end0 + PAGE_SIZE),
+                }
+                assert!(s + PAGE_SIZE <= wd.db.file_len());
+                // registered under the name, in the first free slot
+                let rs = regions_of(&wd.db);
+                assert!(vg::id_index(rs, "z") == Some(wd.nregions) && r.index() == wd.nregions);
+                if w >= s && w < s + PAGE_SIZE {
+                    assert!(after.kind == Kind::Region && after.index == wd.nregions);
+                    assert!(before.n == 0 || before.kind == Kind::Hole);
+                } else {
+                    assert!(after.kind == before.kind && after.index == before.index);
+                }
+                inv_at(&wd, w, true);
+                kani::cover!(best.is_some(), "placed in a hole");
+                kani::cover!(best.is_none() && wd.db.file_len() > file0, "placed at the end, file grown");
+            }
+        }
+        Err(_) => {
+            // only a file-growth failure can refuse; nothing was allocated
+            assert!(fail && !existing);
+            assert!(after == before && layout_of(&wd.db).len() == end0);
+            assert!(vg::id_index(regions_of(&wd.db), "z").is_none());
+        }
+    }
+    assert!(psync::nothing_held());
+    core::mem::forget((res, wd));
+}
+l2!(c02_create_r1h2r1h1, 6, { body_create([Kind::Region, Kind::Hole, Kind::Region, Kind::Hole], [1, 2, 1, 1]); });
+l2!(c02_create_r1p1, 6, { body_create([Kind::Region, Kind::Pending], [1, 1]); });
+l2!(c02_create_r1r1, 6, { body_create([Kind::Region, Kind::Region], [1, 1]); });
